@@ -38,7 +38,7 @@ for d in sorted(glob.glob(os.path.join(VERIF, 'seeded', 'C*-*'))):
          'needs_to_manifest': note,
          'confirmed': {'applies_to_repo_HEAD': bool(r1.get('applied')), 'existing_tests': r1.get('tests'),
                        'demo_exit_with_change': r1.get('demo_with_change'), 'demo_exit_without_change': r1.get('demo_without_change')},
-         'ran': 'harness/seedtest.py seeded/%s %s  (git apply to /repo, pytest, demo, ./check %s --tier quick, git reset --hard, demo)' % (sid, prop, prop),
+         'ran': r1.get('how') or 'harness/seedtest.py seeded/%s %s  (git apply to /repo, pytest, demo, ./check %s --tier quick, git reset --hard, demo)' % (sid, prop, prop),
          'check_result': {'exit': final['exit'], 'first_replay': final.get('first_replay'), 'wall_s': final.get('wall_s')},
          'caught_by_first_version_of_the_check': first_caught, 'first_version_measured_by': first_how, 'detected_by': detected_by if detected_by != prop else None,
          'strengthening': open(st).read().strip() if os.path.exists(st) else None}
